@@ -129,4 +129,32 @@ inline void dump(std::ostream& os,
     os << '\n';
 }
 
+// "F <case> 1 |parents| |indices| |secondary_counts| |vacancies|
+//  |track_counters| |initializers| bool(data) 6 counters n statuses n parents
+//  n vacancies(+1) ne track counters": everything TrackInitData.hh resize and
+// the CoreState constructor set up, before any action has run
+inline void dump_fresh(std::ostream& os, long caseno, CoreState<MemSpace::host>& st)
+{
+    auto const& c = st.counters();
+    auto& ref = st.ref();
+    auto& init = ref.init;
+    size_type n = st.size();
+    os << "F " << caseno << " 1 " << init.parents.size() << ' '
+       << init.indices.size() << ' ' << init.secondary_counts.size() << ' '
+       << init.vacancies.size() << ' ' << init.track_counters.size() << ' '
+       << init.initializers.size() << ' ' << (init ? 1 : 0) << ' '
+       << c.num_generated << ' ' << c.num_initializers << ' '
+       << c.num_vacancies << ' ' << c.num_active << ' ' << c.num_secondaries
+       << ' ' << c.num_alive;
+    for (size_type i = 0; i < n; ++i)
+        os << ' ' << static_cast<int>(ref.sim.status[TrackSlotId{i}]);
+    for (size_type i = 0; i < init.parents.size(); ++i)
+        os << ' ' << enc(init.parents[TrackSlotId{i}]);
+    for (size_type i = 0; i < init.vacancies.size(); ++i)
+        os << ' ' << enc(init.vacancies[TrackSlotId{i}]);
+    for (size_type i = 0; i < init.track_counters.size(); ++i)
+        os << ' ' << init.track_counters[EventId{i}];
+    os << '\n';
+}
+
 }  // namespace verif
